@@ -159,10 +159,17 @@ def cli(ctx):
             data = b"\n".join(lines) + (b"\n" if rng.random() < 0.8 else b"")
             # a byte-order mark makes every strategy go through the transcoder (mmap and slices via slice_has_bom)
             enc = rng.choice([None, None, "utf-16le", "utf-16be", "utf-8-bom"]) if i % 2 else ["utf-16be", "utf-16le", "utf-8-bom", None][(i // 2) % 4]
+            text = data.decode("ascii")
+            cjk = enc in ("utf-16le", "utf-16be") and rng.random() < 0.6
+            if cjk:
+                # decoded UTF-8 longer than the UTF-16 file: the heap-read path must not size its read by the file length
+                more = ["\u4e2d\u6587\u5b57\u7b26\u4e32\u6f22\u5b57 " * rng.randint(2, 8) + rng.choice(["a", "ab", "x b"]) for _ in range(rng.randint(20, 50))]
+                text = "\n".join(more) + "\n" + text
+                data = text.encode("utf-8")
             if enc == "utf-16le":
-                data = b"\xff\xfe" + data.decode("ascii").encode("utf-16le")
+                data = b"\xff\xfe" + text.encode("utf-16le")
             elif enc == "utf-16be":
-                data = b"\xfe\xff" + data.decode("ascii").encode("utf-16be")
+                data = b"\xfe\xff" + text.encode("utf-16be")
             elif enc == "utf-8-bom":
                 data = b"\xef\xbb\xbf" + data
             f = os.path.join(d, "f%d" % i)
@@ -177,6 +184,10 @@ def cli(ctx):
             if rng.random() < 0.2:
                 flags.append("-U")
             pat = rng.choice(["a", "b", "ab", "x$", "^a", "a|b"])
+            if "-U" in flags or (cjk and rng.random() < 0.7):
+                if "-U" not in flags:
+                    flags.append("-U")
+                pat = rng.choice(["a\\n", "\\n", "b\\n", "a", "\\s+\\n"])     # mostly patterns that select the multi-line strategy
             base = [vlib.RG, "--no-config", "--color", "never", "--no-heading", "-H"] + flags + ["-e", pat]
             outs = []
             for mode in ("--mmap", "--no-mmap"):
